@@ -41,6 +41,7 @@ M64 = (1 << 64) - 1
 insn_re = re.compile(r'^\s*([0-9a-f]+):\t([0-9a-f ]+?)\s*(?:\t(.*))?$')
 sym_re = re.compile(r'^([0-9a-f]+) <(.+)>:$')
 rel_re = re.compile(r'^\s+([0-9a-f]+): (R_X86_64_\w+)\s+(\S+?)([-+]0x[0-9a-f]+)?$')
+inline_rel_re = re.compile(r'\t([0-9a-f]+): (R_X86_64_\w+)\t(\S+?)([-+]0x[0-9a-f]+)?\s*$')
 PREF = ('rep', 'repz', 'repnz', 'repe', 'repne', 'lock', 'notrack', 'bnd', 'data16', '{vex}', '{evex}', 'rex.W', 'rex.WR',
         'rex.WB', 'rex.WX', 'rex.R', 'rex.B', 'rex.X', 'rex', 'rex.RB', 'rex.RX', 'rex.XB', 'rex.WRB', 'rex.WRX', 'rex.WXB',
         'rex.RXB', 'rex.WRXB', 'cs', 'ds', 'es', 'ss')
@@ -176,7 +177,11 @@ def parse_obj(path, want_raw=False):
         m = insn_re.match(line)
         if m:
             a = int(m.group(1), 16)
-            txt = (m.group(3) or '').split('#')[0].strip()
+            txt = (m.group(3) or '')
+            inl = inline_rel_re.search(txt)
+            if inl:
+                txt = txt[:inl.start()]
+            txt = txt.split('#')[0].strip()
             raw = m.group(2).strip()
             if not txt:
                 # continuation line of a long instruction's raw bytes
@@ -205,6 +210,11 @@ def parse_obj(path, want_raw=False):
                 d['lock'] = True
             if want_raw:
                 d['raw'] = raw
+            if inl:
+                d['reloc'] = inl.group(3)
+                d['reloc_ty'] = inl.group(2)
+                if inl.group(4):
+                    d['reloc_add'] = int(inl.group(4), 16)
             insns[a] = d
             order.append(a)
             last = a
@@ -271,7 +281,14 @@ def vjoin(a, b):
         lo, hi = min(a[1], b[1]), max(a[2], b[2])
         st = gcd(gcd(a[3], b[3]), abs(a[1] - b[1]))
         return mkint(lo, hi, st if st else 1)
-    return None
+    # small disjunction of differently-shaped values (e.g. rax = 0 on one path, a loaded job pointer on another);
+    # every operation on an 'S' value yields unknown, it is only read at exits
+    sa = a[1] if a[0] == 'S' else frozenset([a])
+    sb = b[1] if b[0] == 'S' else frozenset([b])
+    u = sa | sb
+    if len(u) > 4:
+        return None
+    return ('S', u)
 
 
 class St:
@@ -637,9 +654,16 @@ def analyse_func(name, entry, insns, summaries, thresholds, vec_entry_dirty=Fals
             argv = {r: regs[r] for r in ARGREGS} if collect else None
             if collect:
                 notes.append(('call', a, tgt, argv))
-            for r in CALLER:
-                regs[r] = None
             sm = summaries.get(tgt)
+            if sm and 'gprw' in sm:
+                # known assembly callee: only the registers it (transitively) writes are lost; callee-saved registers it
+                # writes but restores keep their value unless the ABI domain found them clobbered
+                for r in sm['gprw']:
+                    if r in CALLER:
+                        regs[r] = None
+            else:
+                for r in CALLER:
+                    regs[r] = None
             if sm:
                 for r in sm.get('clob', ()):
                     regs[r] = None
@@ -940,6 +964,53 @@ def analyse_func(name, entry, insns, summaries, thresholds, vec_entry_dirty=Fals
     if collect:
         res['addrs'] = None
     return res
+
+
+def written_gprs(entry, insns):
+    """(set of 64-bit GPRs possibly written by instructions reachable from entry without following calls, set of direct callees)"""
+    w = set()
+    callees = set()
+    for a in reachable_insns(entry, insns):
+        i = insns[a]
+        mn = i['mn']
+        ops = split_ops(i['ops'])
+        if mn == 'call' or (mn == 'jmp' and 'reloc' in i):
+            tgt = i.get('reloc')
+            if tgt is None and ops:
+                t = ops[0].split()
+                tgt = re.sub(r'\+0x.*$', '', t[1].strip('<>')) if len(t) > 1 else '?'
+            callees.add(tgt)
+            continue
+        if mn in NOWRITE or mn in JCC or mn in ('jmp', 'ret', 'rep_ret', 'retq', 'push', 'pushf', 'pushfq', 'popf', 'popfq'):
+            continue
+        if mn == 'pop':
+            if ops and ops[0] in SUB:
+                w.add(SUB[ops[0]])
+            continue
+        if ops and ops[0] in SUB:
+            w.add(SUB[ops[0]])
+        if mn in ('xchg', 'xadd', 'mulx', 'cmpxchg') and len(ops) > 1 and ops[1] in SUB:
+            w.add(SUB[ops[1]])
+        if mn in ('mul', 'imul', 'div', 'idiv') and len(ops) == 1:
+            w.update(('rax', 'rdx'))
+        if mn in ('cmpxchg', 'cmpxchg8b', 'cmpxchg16b', 'lahf', 'cbw', 'cwde', 'cdqe', 'xlat', 'xlatb', 'in', 'lodsb', 'lodsw', 'lodsd', 'lodsq'):
+            w.add('rax')
+        if mn in ('cmpxchg8b', 'cmpxchg16b', 'cwd', 'cdq', 'cqo', 'rdtsc', 'rdtscp', 'xgetbv'):
+            w.update(('rax', 'rdx'))
+        if mn == 'rdtscp':
+            w.add('rcx')
+        if mn == 'cpuid':
+            w.update(('rax', 'rbx', 'rcx', 'rdx'))
+        if mn.startswith('rep_') or mn in ('stosb', 'stosw', 'stosd', 'stosq', 'movsb', 'movsw', 'movsq', 'scasb', 'cmpsb', 'loop', 'loope', 'loopne'):
+            w.update(('rcx', 'rsi', 'rdi'))
+            if 'lods' in mn or 'scas' in mn:
+                w.add('rax')
+        if mn in ('pcmpestri', 'pcmpistri', 'vpcmpestri', 'vpcmpistri'):
+            w.add('rcx')
+        if mn in ('enter', 'leave'):
+            w.add('rbp')
+    w.discard('rsp')
+    return w, callees
 
 
 def thresholds_for(insns):
